@@ -280,9 +280,15 @@ def structural(st):
     def v_absent_vs_null(g):
         g[1]['b'] = None
 
+    def v_absent_vs_value(g):
+        del g[1]['b']
+
+    def v_absent_first_row(g):
+        del g[0]['a']
+
     for name, mut in (('row-count', v_rows), ('column-name', v_colname), ('metadata-name', v_meta_name), ('column-metadata-name', v_colmeta_name),
                       ('column-metadata-value', v_colmeta_val), ('metadata-value', v_meta_val), ('extra-column', v_extra_col), ('cell', v_cell),
-                      ('null-vs-str', v_absent_vs_null)):
+                      ('null-vs-str', v_absent_vs_null), ('absent-vs-str', v_absent_vs_value), ('absent-vs-number', v_absent_first_row)):
         g, h = base(), base()
         mut(h)
         for x, y, d in ((g, h, 'a,b'), (h, g, 'b,a')):
